@@ -25,10 +25,15 @@ Inductive cmd :=
   | CStbm (t b : Z)                  (* CSI t ; b r *)
   | CSgr (l : list Z)                (* CSI l m *)
   | CDsr (n : Z)                     (* CSI n n : status (5) / cursor position (6) query; the screen is unchanged *)
-  | CHt.                             (* HT: to the next tab stop (every 8 columns), nothing is written *)
+  | CHt                              (* HT: to the next tab stop (every 8 columns), nothing is written *)
+  | CSo | CSi                        (* SO / SI: G1 / G0 becomes the active character set *)
+  | CDesig (g c : Z).                (* ESC ( c / ESC ) c : designate G0 (g = 0) / G1 (g = 1); c = "0" (48) DEC special
+                                        graphics, "B" (66) ASCII *)
 
 Record rattr := mkRA { r_fg : oz; r_bg : oz; r_bold : bool; r_ul : bool; r_blink : bool; r_rev : bool }.
-Definition rcell := (Z * option rattr)%type.          (* rendition None = erased cell, unspecified *)
+(* a cell: character, and (rendition, character set: 0 ASCII / 1 DEC special graphics) or None = erased cell,
+   unspecified *)
+Definition rcell := (Z * option (rattr * Z))%type.
 Definition rrow := list rcell.
 (* what the terminal answers on its line to the host *)
 Inductive reply := RStatusOk | RCursor (row col : Z).     (* DSR 5 -> "ready"; DSR 6 -> cursor position report, 1-based *)
@@ -36,22 +41,29 @@ Record vt := mkVT { v_w : Z; v_h : Z; v_g : list rrow; v_x : Z; v_y : Z; v_pend 
                     v_top : Z; v_bot : Z; v_attr : rattr;
                     v_sb : list rrow;            (* lines scrolled off the top of the screen, oldest first *)
                     v_sbknown : bool;            (* false once a region not starting at row 0 scrolled *)
-                    v_replies : list reply }.    (* answers sent so far, oldest first *)
+                    v_replies : list reply;      (* answers sent so far, oldest first *)
+                    v_cs : Z * Z * Z }.          (* (G0, G1, shift): sets 0 ASCII / 1 graphics / -1 not yet designated (power-up
+                                                    G1 differs between terminals); shift 0 = G0 active, 1 = G1 *)
 
 Definition ra0 : rattr := mkRA None None false false false false.
 Definition blank : rcell := (32, None).
 Definition blanks (n : Z) : rrow := repeat blank (Z.to_nat n).
 Definition blank_rows (w n : Z) : list rrow := repeat (blanks w) (Z.to_nat n).
 Definition vt_init (w h : Z) : vt :=
-  mkVT w h (repeat (repeat (32, Some ra0) (Z.to_nat w)) (Z.to_nat h)) 0 0 false 0 (h - 1) ra0 [] true [].
+  mkVT w h (repeat (repeat (32, Some (ra0, 0)) (Z.to_nat w)) (Z.to_nat h)) 0 0 false 0 (h - 1) ra0 [] true [] (0, -1, 0).
 
 Definition sub {A} (l : list A) (a b : Z) : list A := takez (b - a) (dropz a l).      (* l[a:b], 0 <= a *)
 Definition nth_row (g : list rrow) (y : Z) : rrow := match nthz g y with Some r => r | None => [] end.
 Definition set_row (g : list rrow) (y : Z) (r : rrow) : list rrow := takez y g ++ r :: dropz (y + 1) g.
 Definition with_g (v : vt) (g : list rrow) : vt :=
-  mkVT (v_w v) (v_h v) g (v_x v) (v_y v) (v_pend v) (v_top v) (v_bot v) (v_attr v) (v_sb v) (v_sbknown v) (v_replies v).
+  mkVT (v_w v) (v_h v) g (v_x v) (v_y v) (v_pend v) (v_top v) (v_bot v) (v_attr v) (v_sb v) (v_sbknown v) (v_replies v) (v_cs v).
 Definition with_xy (v : vt) (x y : Z) (p : bool) : vt :=
-  mkVT (v_w v) (v_h v) (v_g v) x y p (v_top v) (v_bot v) (v_attr v) (v_sb v) (v_sbknown v) (v_replies v).
+  mkVT (v_w v) (v_h v) (v_g v) x y p (v_top v) (v_bot v) (v_attr v) (v_sb v) (v_sbknown v) (v_replies v) (v_cs v).
+Definition with_cs (v : vt) (c : Z * Z * Z) : vt :=
+  mkVT (v_w v) (v_h v) (v_g v) (v_x v) (v_y v) (v_pend v) (v_top v) (v_bot v) (v_attr v) (v_sb v) (v_sbknown v) (v_replies v) c.
+(* the character set in which a printable character is shown now *)
+Definition cur_cs (v : vt) : Z := let '(g0, g1, sh) := v_cs v in if sh =? 0 then g0 else g1.
+Definition set_of (c : Z) : Z := if c =? 48 then 1 else 0.
 Definition one (n : Z) : Z := if n <=? 0 then 1 else n.           (* a count / coordinate parameter *)
 
 (* the scrolling region moves up one line; a line leaving row 0 goes to the scrollback *)
@@ -60,7 +72,7 @@ Definition scroll_up (v : vt) : vt :=
   let g' := takez (v_top v) g ++ sub g (v_top v + 1) (v_bot v + 1) ++ blanks (v_w v) :: dropz (v_bot v + 1) g in
   mkVT (v_w v) (v_h v) g' (v_x v) (v_y v) (v_pend v) (v_top v) (v_bot v) (v_attr v)
        (if v_top v =? 0 then v_sb v ++ [nth_row g 0] else v_sb v)
-       (v_sbknown v && (v_top v =? 0)) (v_replies v).
+       (v_sbknown v && (v_top v =? 0)) (v_replies v) (v_cs v).
 Definition scroll_down (v : vt) : vt :=
   let g := v_g v in
   with_g v (takez (v_top v) g ++ blanks (v_w v) :: sub g (v_top v) (v_bot v) ++ dropz (v_bot v + 1) g).
@@ -123,7 +135,7 @@ Definition exec (v : vt) (c : cmd) : vt :=
       let v := if v_pend v then index (with_xy v 0 y false) else v in
       let x := v_x v in let y := v_y v in
       let r := nth_row (v_g v) y in
-      let v := with_g v (set_row (v_g v) y (takez x r ++ (ch, Some (v_attr v)) :: dropz (x + 1) r)) in
+      let v := with_g v (set_row (v_g v) y (takez x r ++ (ch, Some (v_attr v, cur_cs v)) :: dropz (x + 1) r)) in
       if x =? w - 1 then with_xy v x y true else with_xy v (x + 1) y false
   | CCr => with_xy v 0 y false
   | CLf => index v
@@ -170,15 +182,18 @@ Definition exec (v : vt) (c : cmd) : vt :=
       let t := one t in
       let b := if b <=? 0 then h else b in
       if (t <? b) && (b <=? h)
-      then mkVT w h (v_g v) 0 0 false (t - 1) (b - 1) (v_attr v) (v_sb v) (v_sbknown v) (v_replies v)
+      then mkVT w h (v_g v) 0 0 false (t - 1) (b - 1) (v_attr v) (v_sb v) (v_sbknown v) (v_replies v) (v_cs v)
       else v
   | CSgr l =>
       mkVT w h (v_g v) x y (v_pend v) (v_top v) (v_bot v) (sgr (match l with [] => [0] | _ => l end) (v_attr v))
-           (v_sb v) (v_sbknown v) (v_replies v)
+           (v_sb v) (v_sbknown v) (v_replies v) (v_cs v)
   | CDsr n =>
       mkVT w h (v_g v) x y (v_pend v) (v_top v) (v_bot v) (v_attr v) (v_sb v) (v_sbknown v)
-           (v_replies v ++ (if n =? 5 then [RStatusOk] else if n =? 6 then [RCursor (y + 1) (x + 1)] else []))
+           (v_replies v ++ (if n =? 5 then [RStatusOk] else if n =? 6 then [RCursor (y + 1) (x + 1)] else [])) (v_cs v)
   | CHt => with_xy v (Z.min (w - 1) ((x / 8 + 1) * 8)) y false
+  | CSo => let '(g0, g1, _) := v_cs v in with_cs v (g0, g1, 1)
+  | CSi => let '(g0, g1, _) := v_cs v in with_cs v (g0, g1, 0)
+  | CDesig g c => let '(g0, g1, sh) := v_cs v in if g =? 0 then with_cs v (set_of c, g1, sh) else with_cs v (g0, set_of c, sh)
   end.
 
 Definition run_ref (v : vt) (cs : list cmd) : vt := fold_left exec cs v.
@@ -188,6 +203,7 @@ Definition ambiguous (v : vt) (c : cmd) : bool :=
   let partial := negb ((v_top v =? 0) && (v_bot v =? v_h v - 1)) in
   match c with
   | CLf | CRi | CHt => v_pend v
+  | CSo => let '(_, g1, _) := v_cs v in g1 <? 0        (* shifting to a G1 that was never designated *)
   | CCuu n => partial && (v_top v <=? v_y v) && (v_y v - one n <? v_top v)
   | CCud n => partial && (v_y v <=? v_bot v) && (v_bot v <? v_y v + one n)
   | _ => false
